@@ -287,12 +287,21 @@ end cache
 sections of the real `SetWithCap` / `Del` / `CompareAndDelete`, occupancy ≤
 capacity + number of writers between their insert and the end of their toll.
 
-Proved part: the statement for the counter-level transition system `CStep`, in
-which a writer leaves the in-flight set only after reading `count ≤ capacity`
-or after its toll removed at least one entry.  Missing: that every real writer
-does one of the two — shown for a writer running alone (`capacity_sequential`,
-through `spill_progress`), not for a writer whose whole spill pass finds no
-victim because other writers emptied the segments under it. -/
+Proved, narrowing the gap to one transition:
+* occupancy ≤ counter in every state of every interleaving
+  (`occupancy_le_counter_all_interleavings`);
+* counter ≤ capacity + writers in flight for the counter-level system `CStep`
+  (this theorem), in which a writer leaves the in-flight set only after reading
+  `count ≤ capacity` or after its toll removed at least one entry;
+* a real writer running alone always does one of the two (`capacity_sequential`);
+* a toll visit that removes nothing saw a segment holding no key but the
+  writer's own (`fruitless_toll_visit_saw_empty_segment`), so the only real
+  step outside `CStep` is a writer that returns after `segments-1` consecutive
+  fruitless visits while the counter still read over capacity each time.
+Missing: that this last step cannot leave `count > capacity + writers still in
+flight` (it needs every entry that existed at the writer's insert to be removed
+by someone else before the writer reaches it, and every newer entry to belong
+to a writer still in flight); sampled by `conc run`. -/
 theorem occupancy_le_cap_plus_writers_partial (cap : Int) (s t : CState) (h : CReach cap s t)
     (h0 : s.count ≤ cap + s.owing) : t.count ≤ cap + t.owing :=
   creach_bound cap s t h h0
@@ -323,6 +332,28 @@ theorem lookups_exact_in_every_interleaving {H : Hashes} (hH : HashOk H) {m0 : S
     st.m.get H k = sabs H st.m k ∧ st.m.has H k = (sabs H st.m k).isSome :=
   ireach_get_exact hH inv0 threads h k
 
+/-- **The counter never under-reports.** In every state of every interleaving
+of lock-atomic sections (deferred counter adjustments are removals only: the
+spill evictions, `ClearSegment`) the number of stored, reachable entries is at
+most the atomic counter.  So the toll trigger `count > capacity` fires whenever
+occupancy exceeds the capacity, and any bound on the counter is a bound on
+occupancy: `occupancy ≤ count ≤ capacity + writers in flight` reduces the
+concurrent capacity clause to the counter-level statement below. -/
+theorem occupancy_le_counter_all_interleavings {H : Hashes} (hH : HashOk H) {m0 : SegMap V} (inv0 : SegInv H m0)
+    (threads : Nat) {st : CSt V} (h : IReach H ⟨m0, List.replicate threads 0⟩ st) :
+    (st.m.reachable : Int) ≤ st.m.len :=
+  ireach_total_le_count hH inv0 threads h
+
+/-- **A fruitless toll visit saw an empty segment.** If a visit of the neighbour
+walk (`EvictKeysAt(offset, deficit, key)` under that segment's lock, deficit > 0)
+evicts nothing, the segment held no key other than the writer's own at that
+moment.  A writer can therefore leave the walk unpaid only after `segments-1`
+such visits, each with the counter still reading over capacity. -/
+theorem fruitless_toll_visit_saw_empty_segment {H : Hashes} (hH : HashOk H) {m : SegMap V} (inv : SegInv H m)
+    (j offset deficit k : Nat) (hj : j < m.segs.size) (hd : 0 < deficit)
+    (h0 : evictCnt H m j offset deficit k = 0) : ∀ k', abs (m.segAt j) k' ≠ none → k' = k :=
+  fruitless_visit hH inv j offset deficit k hj hd h0
+
 /-- The model's own operations are such steps: `Set` and `Del` are one
 section each, one spill eviction of `SetWithCap` is a deferred section
 followed by its flush. -/
@@ -333,6 +364,15 @@ theorem ops_are_interleaving_steps {H : Hashes} (hH : HashOk H) {m : SegMap V} (
       ∃ mid, IStep H ⟨m, pend⟩ mid ∧ IStep H mid ⟨evictSeg H m j offset n skip, pend⟩ :=
   ⟨set_is_step hH inv k v pend, del_is_step hH inv k pend,
    fun j offset n skip t hj ht h0 => spill_is_two_steps hH inv j offset n skip t hj pend ht h0⟩
+
+/-- **Every unit of excess is accounted for.** With the unpaid return made an
+explicit transition (`giveUp`, counted in `gave`), along EVERY run of the
+counter-level system `count ≤ capacity + writers in flight + give-ups so far`:
+occupancy can exceed the `_partial` bound only by the number of fruitless
+walks that have happened. -/
+theorem excess_attributed_to_writers_or_giveups (cap : Int) (s t : CState2) (h : CReach2 cap s t)
+    (h0 : s.count ≤ cap + s.owing + s.gave) : t.count ≤ cap + t.owing + t.gave :=
+  (creach2_bound cap s t h h0).1
 
 /-! ## LimiterStore -/
 
@@ -488,6 +528,15 @@ example : ∃ c : Cache Nat, SegInv realHashes c.data ∧ sabs realHashes c.data
   exact ⟨⟨(SegMap.new 4 0).set realHashes 7 2, 4⟩, s1, h7,
     (stale_cleanup_never_removes_newer realHashes_ok (c := ⟨(SegMap.new 4 0).set realHashes 7 2, 4⟩) s1 7 1 2 h7
       (by decide)).2⟩
+
+example : (((SegMap.new 4 0 : SegMap Nat).set realHashes 1 10).reachable : Int) ≤
+    ((SegMap.new 4 0 : SegMap Nat).set realHashes 1 10).len :=
+  occupancy_le_counter_all_interleavings realHashes_ok (segmap_new_spec (V := Nat) realHashes 4 0).1 2
+    (IReach.step (IReach.refl _)
+      ((ops_are_interleaving_steps realHashes_ok (segmap_new_spec realHashes 4 0).1 1 10 [0, 0]).1))
+example : evictCnt realHashes (SegMap.new 4 0 : SegMap Nat) 3 0 2 7 = 0 := by decide
+
+example : CReach2 2 ⟨3, 1, 0⟩ ⟨3, 0, 1⟩ := CReach2.step (CReach2.refl _) (CStep2.giveUp ⟨3, 1, 0⟩ (by decide))
 
 example : CReach 2 ⟨2, 0⟩ ⟨2, 0⟩ ∧ CReach 2 ⟨2, 0⟩ ⟨3, 1⟩ :=
   ⟨CReach.refl _, CReach.step (CReach.refl _) (CStep.insert ⟨2, 0⟩ true)⟩
